@@ -1,6 +1,11 @@
 package world
 
-import "reflect"
+import (
+	"reflect"
+
+	p1model "verifharness/world/p1/model"
+	p2model "verifharness/world/p2/model"
+)
 
 // Provider types outside the palette: an interface with unexported methods, implemented by a type
 // with very few exported methods ("lean") and by one with many ("rich"). reflect counts unexported
@@ -88,3 +93,19 @@ func (a *ArgMark2) Naming() string      { return a.Nm }
 func (a *ArgMark2) Mark(xs ...string)   {}
 func (a *ArgKind) Naming() string       { return a.Nm }
 func (a *ArgKind) Kind(p string) string { return p + "kind" }
+
+// A cycle through two interface types that print alike (model.Linker of two packages): LinkA is a p1 Linker
+// and needs a p2 Linker, LinkB is a p2 Linker and needs a p1 Linker.
+type LinkA struct {
+	Nm   string
+	Next p2model.Linker `wire:""`
+}
+type LinkB struct {
+	Nm   string
+	Next p1model.Linker `wire:""`
+}
+
+func (a *LinkA) Naming() string { return a.Nm }
+func (a *LinkA) L1()            {}
+func (b *LinkB) Naming() string { return b.Nm }
+func (b *LinkB) L2()            {}
